@@ -123,8 +123,22 @@ fn price_of(p: u8) -> Decimal {
     Decimal::new(10_000 + (p % 12) as i64 * 25, 2)
 }
 
+const DEEP_LEVELS: i64 = 104;
+fn deep_book(v: &Venue) -> bool {
+    v.snapshot_sel & 3 == 3
+}
+
 fn simulate(v: &Venue, futures: bool) -> Sim {
     let mut states: Vec<Book> = vec![(BTreeMap::new(), BTreeMap::new())];
+    if deep_book(v) {
+        // a quarter of the venues start with a deep resting book (more levels per side than the 100 a
+        // default REST depth snapshot carries), away from the grid the changes move on: every level
+        // of it is part of the venue's book until a diff removes it
+        for k in 0..DEEP_LEVELS {
+            states[0].0.insert(Decimal::new(100 + k, 2), Decimal::new(5 + (k % 9) * 5, 1));
+            states[0].1.insert(Decimal::new(20_000 + k, 2), Decimal::new(5 + (k % 7) * 5, 1));
+        }
+    }
     for c in &v.changes {
         let mut b = states.last().unwrap().clone();
         if c.amount == NIL_CHANGE {
@@ -559,6 +573,7 @@ impl Check for BinanceL2Stream {
         rep.class(if futures { "futures_rule_set" } else { "spot_rule_set" });
         rep.class_if(errored.iter().any(|e| *e), "sequence_error_raised");
         rep.class_if(case.second_session.is_some(), "re_initialised_second_session");
+        rep.class_if(case.venues.iter().any(|v| deep_book(v) && !v.changes.is_empty()), "deep_resting_book_over_100_levels_a_side");
         rep.class_if(second_session_lagging, "second_session_snapshot_behind_local_book");
         rep.class_if(sims.iter().any(|s| s.msgs.iter().any(|m| m.bids.is_empty() && m.asks.is_empty())), "depth_update_with_empty_level_lists");
         rep.class_if(perturbed_after_progress, "perturbed_after_admitted_message");
@@ -572,7 +587,7 @@ impl Check for BinanceL2Stream {
 }
 
 pub fn run(ctx: &mut Ctx) {
-    ctx.rule = "binance_l2_stream: spot or USD-futures rule set; 2..3 instruments on one connection (symbols from a pool of 8, initial snapshots handed over in a generated order), each a simulated venue of 0..23 atomic changes (12-price grid, 25% deletes, 18% id-only changes so that depth updates with empty level lists occur) grouped into messages of 1..4 changes with absolute amounts; snapshot at any id (inside or at the edge of a message); delivery starts 0..3 messages early (older messages included) or 1..3 late, and is perturbed by drop / duplicate / adjacent swap / replay of an old prefix (half of the venues) or left clean; instruments interleaved; optional message for an unsubscribed symbol; in 35% of the cases the connection is then re-initialised: new snapshots at generated ids (often behind what the long-lived local books hold) are applied to the same books and every feed is delivered again gap-free from its new starting point. non-trivial = a perturbed instrument with >= 1 message admitted before the break, or a clean instrument with >= 1 stale prefix message and the snapshot strictly inside a message; distinct by hash of the case.".into();
+    ctx.rule = "binance_l2_stream: spot or USD-futures rule set; 2..3 instruments on one connection (symbols from a pool of 8, initial snapshots handed over in a generated order), each a simulated venue (a quarter of them start with a deep resting book of 104 levels a side away from the grid) of 0..23 atomic changes (12-price grid, 25% deletes, 18% id-only changes so that depth updates with empty level lists occur) grouped into messages of 1..4 changes with absolute amounts; snapshot at any id (inside or at the edge of a message); delivery starts 0..3 messages early (older messages included) or 1..3 late, and is perturbed by drop / duplicate / adjacent swap / replay of an old prefix (half of the venues) or left clean; instruments interleaved; optional message for an unsubscribed symbol; in 35% of the cases the connection is then re-initialised: new snapshots at generated ids (often behind what the long-lived local books hold) are applied to the same books and every feed is delivered again gap-free from its new starting point. non-trivial = a perturbed instrument with >= 1 message admitted before the break, or a clean instrument with >= 1 stale prefix message and the snapshot strictly inside a message; distinct by hash of the case.".into();
     ctx.assumptions = vec![
         "venue behaviour as published: consecutive update ids, diff messages carry absolute quantities, futures messages carry pu = previous message's u; futures snapshots lie inside a message's id range".into(),
         "payloads are synthesised in the venue's documented JSON shape and parsed by the connector's own Deserialize impls".into(),
